@@ -391,6 +391,16 @@ func compressRef(msg []byte, level int) []byte {
 	return b[:len(b)-4]
 }
 
+// compressDict is compressRef with a preset dictionary.
+func compressDict(msg, dict []byte) []byte {
+	var buf bytes.Buffer
+	fw, _ := flate.NewWriterDict(&buf, 6, dict)
+	fw.Write(msg)
+	fw.Flush()
+	b := buf.Bytes()
+	return b[:len(b)-4]
+}
+
 func readAllTranscript(rd io.Reader, bufSize int) (data []byte, tr []string) {
 	buf := make([]byte, bufSize)
 	for i := 0; i < 1<<20; i++ {
@@ -409,6 +419,16 @@ func c18FlateReader(r *eng.Run) {
 	r.SetEntry("wsflate.Reader.Reset")
 	m1, m2 := drawMessage(r), drawMessage(r)
 	c1, c2 := compressRef(m1, 6), compressRef(m2, 6)
+	// Or both peers agreed on a preset dictionary: the application's
+	// decompressor constructor carries it.
+	var dict []byte
+	if r.T.Chance(sim.LCfg, 1, 4) {
+		dict = []byte("the quick brown fox jumps over the lazy dog; websocket frame ")
+		m1 = append([]byte("the quick brown fox "), m1...)
+		m2 = append([]byte("over the lazy dog; websocket frame "), m2...)
+		c1, c2 = compressDict(m1, dict), compressDict(m2, dict)
+		r.Probe("decompressor_with_preset_dictionary")
+	}
 	mode1 := r.T.Int(sim.LHist, 4)
 	switch mode1 {
 	case 1:
@@ -434,6 +454,9 @@ func c18FlateReader(r *eng.Run) {
 		mode1 = 4
 	}
 	dtor := drawDtor(r)
+	if dict != nil {
+		dtor = func(src io.Reader) wsflate.Decompressor { return flate.NewReaderDict(src, dict) }
+	}
 	fr := wsflate.NewReader(first, dtor)
 	buf := make([]byte, drawBuf(r))
 	switch mode1 {
